@@ -272,5 +272,9 @@ pt_state_t console_gpio_do_cmd(console_t *c);
  */
 int console_gpio_register(const console_gpio_t *gpio);
 
+#ifdef LIBRFN_VERIF
+void console_verif_reset(void);
+#endif
+
 /*! @} */
 #endif // RF_CONSOLE_H_
